@@ -572,7 +572,7 @@ func (f *Frame) doAppend(v ssa.Value, c *ssa.CallCommon, pos token.Pos) {
 				old := Select(H, SPtr(s))
 				content := f.enc.declConst(f.enc.fresh(f.sym("app")), inner)
 				// content[i] = old[off+i] for i < len ; content[len+j] = src[j]
-				f.enc.addFact(content.S, fmt.Sprintf("(assert (forall ((i!a Int)) (! (=> (and (<= 0 i!a) (< i!a %s)) (= (select %s i!a) (select %s (+ %s i!a)))) :pattern ((select %s i!a)))))", SLen(s).S, content.S, old.S, SOff(s).S, content.S))
+				f.enc.addFact(content.S, fmt.Sprintf("(assert (forall ((i!a Int)) (! (=> (and (<= 0 i!a) (< i!a %s)) (= (select %s i!a) (%s %s %s i!a))) :pattern ((select %s i!a)))))", SLen(s).S, content.S, f.atFn(es), old.S, SOff(s).S, content.S))
 				for j := int64(0); j < n; j++ {
 					f.enc.factAbout(content, Eq(Select(content, Add(SLen(s), IntLit(j))), Select(src, IntLit(j))))
 				}
@@ -590,7 +590,7 @@ func (f *Frame) doAppend(v ssa.Value, c *ssa.CallCommon, pos token.Pos) {
 	r := f.newRef()
 	old := Select(H, SPtr(s))
 	content := f.enc.declConst(f.enc.fresh(f.sym("app")), inner)
-	f.enc.addFact(content.S, fmt.Sprintf("(assert (forall ((i!a Int)) (! (=> (and (<= 0 i!a) (< i!a %s)) (= (select %s i!a) (select %s (+ %s i!a)))) :pattern ((select %s i!a)))))", SLen(s).S, content.S, old.S, SOff(s).S, content.S))
+	f.enc.addFact(content.S, fmt.Sprintf("(assert (forall ((i!a Int)) (! (=> (and (<= 0 i!a) (< i!a %s)) (= (select %s i!a) (%s %s %s i!a))) :pattern ((select %s i!a)))))", SLen(s).S, content.S, f.atFn(es), old.S, SOff(s).S, content.S))
 	var tl T
 	if t.Sort == SStr {
 		tl = App(SInt, "strlen", t)
@@ -598,7 +598,7 @@ func (f *Frame) doAppend(v ssa.Value, c *ssa.CallCommon, pos token.Pos) {
 	} else {
 		tl = SLen(t)
 		src := Select(H, SPtr(t))
-		f.enc.addFact(content.S, fmt.Sprintf("(assert (forall ((k!a Int)) (! (=> (and (<= %[1]s k!a) (< k!a (+ %[1]s %[2]s))) (= (select %[3]s k!a) (select %[4]s (+ %[5]s (- k!a %[1]s))))) :pattern ((select %[3]s k!a)))))", SLen(s).S, tl.S, content.S, src.S, SOff(t).S))
+		f.enc.addFact(content.S, fmt.Sprintf("(assert (forall ((k!a Int)) (! (=> (and (<= %[1]s k!a) (< k!a (+ %[1]s %[2]s))) (= (select %[3]s k!a) (%[6]s %[4]s %[5]s (- k!a %[1]s)))) :pattern ((select %[3]s k!a)))))", SLen(s).S, tl.S, content.S, src.S, SOff(t).S, f.atFn(es)))
 	}
 	f.stSet(arr, Store(f.stGet(arr, as), r, content))
 	nl := Add(SLen(s), tl)
@@ -670,4 +670,11 @@ func (e *Enc) cachedApp(t T) T {
 	s := e.define("app", t)
 	e.appCache[t.S] = s
 	return s
+}
+
+// atFn: name of the element accessor for sort es (declares it and its axiom on first use).
+func (f *Frame) atFn(es Sort) string {
+	t := atTerm(f.enc, es, T{"x", ArrSort(SInt, es)}, Zero, Zero)
+	_ = t
+	return q("at_" + sortSuffix(es))
 }
